@@ -34,9 +34,15 @@
       activations survive calls (`CallInv`, `CallEntry`).
     * the link from an accepted `Check.validateProg` certificate to the real TEAL:
       `Proofs/C02Compile.lean`.
-  NOT PROVED: `WideRatio`; `Return` in operand position (false: `ret_in_operand_counterexample`);
+    * `WideRatio` is inside the fragment (`Proofs/C02GenWide.lean`, `case_wide`; the opcode
+      arithmetic is that of `Proofs/C16.lean`) under the side conditions W1, W2 of
+      `Models/FragmentR.lean` (`wideOk`): the first two factors of a factor list with at least two
+      factors are syntactically uint64, and the factors evaluated after an opcode that can fail
+      contain neither `Exit` nor calls.  Both are needed (`wide_unbounded_counterexample`,
+      `wide_exit_counterexample` below).
+  NOT PROVED: `Return` in operand position (false: `ret_in_operand_counterexample`);
   by-reference accesses outside the discipline without the range-failure caveat (false:
-  `ref_discipline_counterexample`).
+  `ref_discipline_counterexample`); `WideRatio` outside W1 / W2 (false, see above).
   The final world is equal **up to the representation of the scratch space** (`SameW`: same
   content slot by slot, every other component equal).  Literal equality is false as soon as a
   routine has two parameters (`scratch_order_counterexample` below): `Src.eval` binds parameters
@@ -830,6 +836,44 @@ theorem ret_in_operand_counterexample :
     ∃ Pg f, inFragmentR retOperandProg = false ∧ genProg 8 false retOperandProg = .ok Pg ∧
       Src.runProg {} retOperandProg 20 = .done (.u 4) {} ∧ runP {} Pg 100 {} = .fail f :=
   ⟨_, _, by decide, rfl, rfl, rfl⟩
+
+/-! ### `WideRatio`: non-vacuity, and why the side conditions W1, W2 are there -/
+
+/-- `WideRatio([2^63, 6, 5], [2^40, 3])`: the 128-bit intermediate products exceed 64 bits -/
+def wideProg : Prog :=
+  { subs := [], main := .wideRatio [.int (2 ^ 63), .int 6, .int 5] [.int (2 ^ 40), .int 3] }
+
+example : inFragmentR wideProg = true := by decide
+example : ∃ Pg w, genProg 8 false wideProg = .ok Pg ∧ Src.runProg {} wideProg 20 = .done (.u 83886080) w ∧
+    runP {} Pg 200 {} = .done (.u 83886080) w := ⟨_, _, rfl, rfl, rfl⟩
+example (Pg : PProg) (hg : genProg 8 false wideProg = .ok Pg) :
+    ∃ n, (∃ w', SameW [] {} w' ∧ runP {} Pg n {} = .done (.u 83886080) w')
+      ∨ runP {} Pg n {} = .fail (.logic "stack overflow") :=
+  genProg_correct 8 wideProg (by decide) Pg hg {} {} 20
+
+/-- W1 is needed: the values `Val.u n` of the model are unbounded and `mulw` multiplies whatever it
+    is given, while `Src.wideProd` fails when the product of the first two factors is not below
+    2^128: `WideRatio([2^100, 2^100], [2^150])` fails in the source semantics and yields `2^50` on
+    the machine.  (On the real AVM no value is ≥ 2^64: an artefact of the unbounded `Val.u`.) -/
+def wideUnboundedProg : Prog :=
+  { subs := [], main := .wideRatio [.int (2 ^ 100), .int (2 ^ 100)] [.int (2 ^ 150)] }
+
+theorem wide_unbounded_counterexample :
+    ∃ Pg f w, inFragmentR wideUnboundedProg = false ∧ genProg 8 false wideUnboundedProg = .ok Pg ∧
+      Src.runProg {} wideUnboundedProg 20 = .fail f ∧ runP {} Pg 200 {} = .done (.u (2 ^ 50)) w :=
+  ⟨_, _, _, by decide, rfl, rfl, rfl⟩
+
+/-- W2 is needed: the source semantics evaluates all factors before it multiplies, the generated
+    code multiplies as soon as a factor is there: `WideRatio([2^63, 2^63, 4, Exit(1)], [1])` ends
+    with `Exit(1)` in the source semantics; the machine has failed in the `mulStep` after the third
+    factor (2^128 does not fit). -/
+def wideExitProg : Prog :=
+  { subs := [], main := .wideRatio [.int (2 ^ 63), .int (2 ^ 63), .int 4, .exit (.int 1)] [.int 1] }
+
+theorem wide_exit_counterexample :
+    ∃ Pg f w, inFragmentR wideExitProg = false ∧ genProg 8 false wideExitProg = .ok Pg ∧
+      Src.runProg {} wideExitProg 20 = .done (.u 1) w ∧ runP {} Pg 200 {} = .fail f :=
+  ⟨_, _, _, by decide, rfl, rfl, rfl⟩
 
 /-! ### Frame-pointer convention: non-vacuity and why the statement has this shape -/
 
